@@ -43,6 +43,8 @@ def main():
             except SystemExit as e:
                 print(str(e))
                 rc = 2
+        if os.environ.get("JRS_RECORD_ANCHORS"):
+            prog.dump_anchors(os.path.join(report.VERIF, "tables", "anchors.json"))
         return rc
     t0 = time.time()
     p = props.PROPS.get(a.prop)
